@@ -17,7 +17,7 @@ type monItem struct {
 	kind, flag string
 	outs       []string
 	run        int
-	ranOnce    bool
+	held       bool
 }
 
 func fields(out string) map[string]string {
@@ -63,6 +63,7 @@ func monitor(c hxlib.Case, outs []string) (vs []hxlib.Violation) {
 	firstCnt, lastSettle, lastSettleOthers := "", "", ""
 	firstPanicKind := "none"
 	workStarted := false
+	outstanding := false
 	for i, l := range c.Lines {
 		if i >= len(outs) {
 			break
@@ -90,6 +91,14 @@ func monitor(c hxlib.Case, outs []string) (vs []hxlib.Violation) {
 			continue
 		}
 		fl := fields(o)
+		if (op == "manage" || op == "shutdown") && strings.HasPrefix(fl["st"], "offline") {
+			// the subject module was stopped: items waiting for its context have ended
+			for _, it := range items {
+				if it.flag == "onstop" {
+					it.held = false
+				}
+			}
+		}
 		switch op {
 		case "mod":
 			if len(f) >= 5 {
@@ -163,6 +172,12 @@ func monitor(c hxlib.Case, outs []string) (vs []hxlib.Violation) {
 			}
 			if op == "settle" {
 				lastSettle, lastSettleOthers = fl["cnt"], fl["others"]
+				outstanding = false
+				for _, it := range items {
+					if it.held {
+						outstanding = true // work that has not been told to finish is rightly still counted
+					}
+				}
 			}
 		case "spawn":
 			if len(f) < 4 || !strings.HasPrefix(o, "spawn ") {
@@ -174,6 +189,7 @@ func monitor(c hxlib.Case, outs []string) (vs []hxlib.Violation) {
 			}
 			items[f[1]] = it
 			workStarted = true
+			it.held = strings.HasPrefix(o, "spawn ok")
 			if strings.HasPrefix(o, "spawn noentry") {
 				add("C06:item-did-not-start:"+it.kind, "the managed function was never entered: "+o)
 			}
@@ -183,6 +199,7 @@ func monitor(c hxlib.Case, outs []string) (vs []hxlib.Violation) {
 				continue
 			}
 			it.outs = append(it.outs, strings.Split(f[3], ",")...)
+			it.held = strings.HasPrefix(o, "requeue ok")
 			if !strings.HasPrefix(o, "requeue ok") {
 				add("C06:task-cannot-run-again:"+it.kind, "a task that had run (and possibly panicked) was queued again but did not execute: "+o)
 			}
@@ -196,6 +213,7 @@ func monitor(c hxlib.Case, outs []string) (vs []hxlib.Violation) {
 				cur = it.outs[it.run]
 			}
 			it.run++
+			it.held = fl["next"] == "reentered"
 			if !strings.HasPrefix(cur, "p:") {
 				continue
 			}
@@ -275,7 +293,7 @@ func monitor(c hxlib.Case, outs []string) (vs []hxlib.Violation) {
 			}
 		}
 	}
-	if lastSettle != "" && firstCnt != "" && (lastSettle != firstCnt || lastSettleOthers == "dirty") {
+	if lastSettle != "" && firstCnt != "" && !outstanding && (lastSettle != firstCnt || lastSettleOthers == "dirty") {
 		add("C06:counters-not-restored:"+firstPanicKind,
 			fmt.Sprintf("work counters (workers,tasks,microtasks,global microtasks,ctrl) before: %s, after everything finished: %s others=%s", firstCnt, lastSettle, lastSettleOthers))
 	}
